@@ -57,14 +57,15 @@ def CtxFor (env : REnv) (ctx : RCtx) : Node → Prop
       ∃ L, lineageOf env v b = some L ∧ topEntry ctx.blocks b = some (L, lvl)
   | .comp v _ => ctx.view = v
 
-theorem andThen_ne_fuel {a b : Except RErr String} (ha : a ≠ .error .outOfFuel) (hb : b ≠ .error .outOfFuel) :
+theorem andThen_ne_fuel {a : Except RErr String} {b : Unit → Except RErr String}
+    (ha : a ≠ .error .outOfFuel) (hb : b () ≠ .error .outOfFuel) :
     andThen a b ≠ .error .outOfFuel := by
   unfold andThen
   cases a with
   | error e => simpa using ha
   | ok out =>
-    cases b with
-    | error e => simpa using hb
+    cases hk : b () with
+    | error e => rw [hk] at hb; simpa using hb
     | ok r => simp
 
 theorem topEntry_setTopLevel (bs : List BlockEntry) (name : String) (L : List String) (i j : Nat)
